@@ -580,7 +580,7 @@ func report(p Prop, tier string, seed int64, all []CaseResult, inconclusive []st
 				continue
 			}
 			violations++
-			if violations > 25 {
+			if violations > maxReplays() {
 				continue
 			}
 			name := fmt.Sprintf("%s-%s-seed%d-case%d-%d.json", p.ID(), tier, seed, r.Idx, vi)
@@ -749,4 +749,13 @@ func ReplayMain(p Prop, path string) int {
 		return 1
 	}
 	return 0
+}
+
+
+// maxReplays caps the replay files written per run (VERIF_MAX_REPLAYS raises it for triage).
+func maxReplays() int {
+	if v, err := strconv.Atoi(os.Getenv("VERIF_MAX_REPLAYS")); err == nil && v > 0 {
+		return v
+	}
+	return 25
 }
